@@ -38,7 +38,7 @@ def work(ctx, tier):
     n = (9000 if tier == "quick" else 250000) // ctx.nshards
     for k in range(n):
         sc = gen.rand_scenario(rng, p_special=0.1, specials=("abort", "nested_exh", "nested_open", "cancel", "kbd", "sysexit", "genexit", "base", "timeout", "timeout"), p_budget=0.25, p_handler=0.35, p_abort=0.2,
-                               p_breaker=1.0, ncalls=(1, 6), placements=(k % 6 == 0))
+                               p_breaker=1.0, ncalls=(1, 6), placements=(k % 6 == 0), falsy_objects=True, poll_kinds=True)
         if k % 8 == 0:
             sc["cfg"]["no_retry"] = True
         if k % 2 == 0:
@@ -56,7 +56,10 @@ def work(ctx, tier):
         sc["cfg"]["breaker"]["pre"] = rng.choice([[], sc["cfg"]["breaker"]["pre"]])
         if k % 3 == 0:
             sc["cfg"]["no_retry"] = True
-        sc["fault"] = {"kind": "cb", "cb": rng.choice(["astart", "aend", "aend"]), "at": rng.randint(0, 2), "exc": rng.choice(["RuntimeError", "ValueError", "KeyError"])}
+        sc["fault"] = {"kind": "cb", "cb": rng.choice(["astart", "aend", "aend", "abort_if"]), "at": rng.choice([0, 1, 2, "always"]), "exc": rng.choice(["RuntimeError", "ValueError", "KeyError"])}
+        sc["poll"] = True
+        if k % 4 == 0:
+            sc["cfg"]["breaker"]["falsy"] = True
         for e in common.pick_entries(rng, ENTRIES, 2):
             recs, h, w = rig.run(sc, e)
             ctx.inc("runs")
@@ -69,6 +72,13 @@ def work(ctx, tier):
                 ctx.cnt["attempt_hook_fault_calls"] += 1
                 if n != 1:
                     ctx.viol("multiple-records" if n > 1 else "no-record", f"[{e} call#{rec.idx}] {sc['fault']['cb']} hook raised; admitted call reported {n} times: {spy[1:]}", common.payload(sc, e, rec.idx))
+                elif sc["fault"]["cb"] == "astart" and sc["fault"]["at"] == "always" and not sc["cfg"].get("no_retry"):
+                    # every attempt's start hook raises an ordinary error: the call failed (it was neither aborted nor cancelled)
+                    kind, val = rec.final
+                    aborted = (kind == "return" and getattr(getattr(val, "stop_reason", None), "value", None) == "ABORTED") or (kind == "raise" and type(val).__name__ == "AbortRetryError")
+                    ctx.cnt["always_raising_start_hook_calls"] += 1
+                    if not aborted and spy[1][0] != "br.failure":
+                        ctx.viol("failed-call-recorded-as-" + spy[1][0][3:], f"[{e} call#{rec.idx}] every attempt failed in on_attempt_start ({sc['fault']['exc']}); the call was not aborted, yet the breaker was told {spy[1]}", common.payload(sc, e, rec.idx))
         ctx.inc("attempt_hook_fault_scenarios")
     for i, sc in enumerate(gen.sweep_scenarios(max_len=3, stride=5 if tier == "quick" else 1)):
         if i % ctx.nshards != ctx.shard:
